@@ -58,7 +58,8 @@ pub fn gen(rng: &mut Prng, small: bool) -> Cfg {
             out: match rng.below(10) {
                 0..=5 => Out::Ok,
                 6..=7 => Out::Err(1),
-                _ => Out::Panic,
+                8 => Out::Panic,
+                _ => Out::PanicInCall,
             },
             open_poll: open,
             pause: rng.chance(0.3),
